@@ -66,10 +66,10 @@ def decodeAll (c : Codec) (bs : Bytes) : List Char := c.tail c.init bs
 structure Lawful (c : Codec) : Prop where
   /-- ASCII bytes decode to themselves and leave no pending state -/
   ascii : ∀ b : UInt8, b < 128 → c.decStep c.init b = ⟨c.init, [Char.ofNat b.toNat], true⟩
-  /-- in the neutral state every byte is consumed -/
-  init_consumes : ∀ b, (c.decStep c.init b).consumed = true
-  /-- a byte is unread only when the decoder falls back to the neutral state -/
-  unread_init : ∀ s b, (c.decStep s b).consumed = false → (c.decStep s b).st = c.init
+  /-- a byte is unread at most once: in the state the decoder falls back to, it is consumed
+  (in all decoders but gb18030 that state is the neutral one) -/
+  unread_once : ∀ s b, (c.decStep s b).consumed = false →
+    (c.decStep (c.decStep s b).st b).consumed = true
   /-- nothing is pending in the neutral state -/
   flush_init : c.decFlush c.init = []
   /-- one micro-step writes at most one scalar value's worth of UTF-8 (4 bytes) -/
